@@ -234,6 +234,40 @@ def extra_c12_bounded(prop, tier, seed):
     return res
 
 
+def extra_c10_perm(prop, tier, seed):
+    """Bounded stand-in (labelled, never counted) for the main clause of C10 on the REAL CBOR validator:
+    for 252 map schemas with overlapping members and every map of 2..3 pairs over keys {1,2,3} x values
+    {5,"a",true} (duplicate keys included) all permutations of the pairs must get one verdict.  The
+    instances that disagree on the unchanged tree are recorded in known_instances_F18.json (known finding
+    F18); any instance NOT in that file is a new violation."""
+    out, err = _replay(['u6b', 'find', 'thorough'], timeout=3000)
+    if out is None:
+        raise engine.Undecided('replay-failed', err)
+    known = set(json.load(open(os.path.join(engine.VERIF, 'known_instances_F18.json'))))
+    failing = out.get('failing', [])
+    new = [f for f in failing if f not in known]
+    res = {'violations': [], 'bounded': [{'check': 'CBOR map verdict invariant under permutation of the pairs (real validator)',
+                                          'bound': '252 schemas x 210 maps of 2..3 pairs, all permutations', 'validations': out.get('tried'),
+                                          'disagreeing_instances': len(failing), 'recorded_as_known_F18': len(failing) - len(new),
+                                          'new': len(new)}]}
+    if failing and len(new) < len(failing):
+        w = {'id': 'm = { uint => tstr, uint => int }##0105,026161'}
+        res['violations'].append({
+            'unit': 'U6b', 'label': 'map:verdict-invariant-under-pair-permutation:recorded-instances', 'fn': 'CBORValidator (map members keyed by type)',
+            'message': '%d recorded (schema, map) instances get different verdicts for different pair orders' % (len(failing) - len(new)),
+            'clause': [], 'engine': 'replay', 'verifier_output': out.get('first', ''),
+            'fixed_witness': {'found': True, 'witness': w, 'real': out.get('first'), 'replay_args': ['u6b', 'replay', json.dumps(w)]}})
+    if new:
+        w = {'id': new[0]}
+        res['violations'].append({
+            'unit': 'U6b', 'label': 'map:verdict-invariant-under-pair-permutation', 'fn': 'CBORValidator map validation',
+            'message': '%d (schema, map) instances that are NOT recorded get different verdicts for different pair orders (first: %s)' % (len(new), new[0]),
+            'clause': [], 'engine': 'replay', 'verifier_output': json.dumps(new[:20]),
+            'fixed_witness': {'found': True, 'witness': w, 'real': 'permutations of this map disagree: ' + new[0],
+                              'replay_args': ['u6b', 'replay', json.dumps(w)]}})
+    return res
+
+
 def witness_u2(v, tier):
     out, err = _replay(['u2', 'find'])
     if out and out.get('found'):
@@ -491,10 +525,10 @@ PROPS = {
     },
     'C10': {
         'vx': ['U6'],
-        'extra': [extra_c10_bounded],
+        'extra': [extra_c10_bounded, extra_c10_perm],
         'witness': witness_u6,
         'technique': 'Verus contract (requires/ensures/decreases, loop invariant, proof hints) on the real Kuhn augmenting step + lemma for its caller',
-        'level_text': 'Duplicate-key clause of C10 only ("each physical key/value pair must be accounted for by some member" - no pair is handed to two members, no member gets two pairs): Verus proves for the real augment_single_entry_assignment, for every compatibility matrix and every search state, that owners are compatible claims, pairs already visited keep their owner, failure leaves the assignment unchanged, success gives the searching claim exactly one new unvisited pair, no other claim ever owns two pairs, no claim appears from nowhere, matched claims stay matched; termination (decreasing count of unvisited pairs); index safety. A lemma derives for the calling loop that the assignment stays an injective matching. Completeness of the search (false => no perfect matching) is only cross-checked against brute force on small matrices (bounded, not counted). Order-independence of the verdict is not decided.',
+        'level_text': 'Duplicate-key clause of C10 only ("each physical key/value pair must be accounted for by some member" - no pair is handed to two members, no member gets two pairs): Verus proves for the real augment_single_entry_assignment, for every compatibility matrix and every search state, that owners are compatible claims, pairs already visited keep their owner, failure leaves the assignment unchanged, success gives the searching claim exactly one new unvisited pair, no other claim ever owns two pairs, no claim appears from nowhere, matched claims stay matched; termination (decreasing count of unvisited pairs); index safety. A lemma derives for the calling loop that the assignment stays an injective matching. Completeness of the search (false => no perfect matching) is only cross-checked against brute force on small matrices (bounded, not counted). Order-independence of the verdict itself is outside both verifiers (it is produced by the validator visitor); a bounded stand-in runs all pair permutations of small maps through the real validator (labelled bounded) and found that the verdict IS order-dependent for members keyed by type - known finding F18, recorded instance by instance so that new instances are still reported.',
         'level_note': 'Trusted: Verus+Z3, vstd slice/Vec specs. Extraction rewrites: R2 (Option::is_none_or closure inlined to match), R6 (Self:: dropped, associated fn lifted), R9 (for-range with continue desugared to while with the increment first). Unverified: try_reassign_failed_single_entries (builds the matrix by running the validator and commits the assignment), the ledger bookkeeping on the validator struct, JSON side (serde_json map has no duplicate keys).',
         'design_ref': 'DESIGN.md 4 U6',
         'scope': 'CBORValidator::augment_single_entry_assignment',
